@@ -24,6 +24,9 @@ def dispatch(prop: str):
     if prop == "C17":
         from .engines import imports
         return imports.check
+    if prop in ("C10", "C11"):
+        from .engines import scoping
+        return lambda tier, seed: scoping.run_engine(prop, tier, seed)
     raise SystemExit(f"no check registered for {prop}")
 
 
